@@ -33,13 +33,14 @@ type emitter struct {
 	ok        bool
 	why       string
 	// slice-returning variants
-	allocLen   *Poly
-	loopWrites string // index expression written in the loop
-	tailIndex  *Poly
-	idxFirst   string
-	resultRet  bool
-	appendAcc  *ssa.Phi // result grown by append (no indexed stores)
-	writeLV    *Term    // the loop variable that indexes the result in the loop (offset 0)
+	allocLen    *Poly
+	loopWrites  string // index expression written in the loop
+	tailIndex   *Poly
+	idxFirst    string
+	resultRet   bool
+	appendAcc   *ssa.Phi // result grown by append (no indexed stores)
+	writeLV     *Term    // the loop variable that indexes the result in the loop (offset 0)
+	appendDeleg bool     // collector closure around the callback sibling that appends each piece to an empty result
 }
 
 // canonical rendering of a term independent of the enclosing function (params by index, loop vars by role)
@@ -361,6 +362,9 @@ func analyseEmitter(c *Ctx, rule string, fi *FuncInfo, callbackParam int) *emitt
 			continue
 		}
 		inLoop := p.LoopIn[li.Hdr] != nil
+		if !inLoop && p.End == EndPanic && c13UnreachableRoundedGuard(p, fn) {
+			continue // a guard on (len/size)*size outside [0, len]: cannot fire (lemma chunk_rounded_in_range)
+		}
 		if !inLoop {
 			if len(emissionsOf(p, 0, len(p.Events))) != 0 {
 				fail("a row before the loop emits a piece")
@@ -640,7 +644,7 @@ func runC13(c *Ctx) {
 		if em == nil {
 			continue
 		}
-		if em.ok && em.appendAcc != nil {
+		if em.ok && (em.appendAcc != nil || em.appendDeleg) {
 			R.Held("alloc-equals-writes", name, "count", c.pos(em.fi), "the result starts empty and grows by exactly one element per emitted piece (append)")
 			continue
 		}
@@ -743,6 +747,14 @@ func c13Delegate(c *Ctx, rule string, a, b *FuncInfo, eb *emitter, cbParam int) 
 			continue
 		}
 		mains++
+		if len(calls) == 1 && p.End == EndReturn && len(p.Rets) == 1 && p.Rets[0].Op == "load" && p.Rets[0].Args[0].Op == "alloc" {
+			if c13AppendDelegate(c, a, p, calls[0], cbParam) {
+				em.appendDeleg = true
+				em.resultRet = true
+				continue
+			}
+			return nil
+		}
 		if len(calls) != 1 || p.End != EndReturn || len(p.Rets) != 1 || p.Rets[0].Op != "mkslice" {
 			return nil
 		}
@@ -855,4 +867,127 @@ func c13Delegate(c *Ctx, rule string, a, b *FuncInfo, eb *emitter, cbParam int) 
 		return nil
 	}
 	return em
+}
+
+// c13AppendDelegate: result := make(.., 0, n) kept in a cell; Sibling(args..., func(piece...) { result = append(result,
+// piece) }); return result - every piece the sibling hands over is appended once, to a result that starts empty.
+func c13AppendDelegate(c *Ctx, a *FuncInfo, p *Path, call *Event, cbParam int) bool {
+	cell := p.Rets[0].Args[0]
+	if len(call.Args) != cbParam+1 {
+		return false
+	}
+	for k := 0; k < cbParam; k++ {
+		if !isParam(call.Args[k], k) {
+			return false
+		}
+	}
+	var mk *Event
+	inits := 0
+	for i := range p.Events {
+		e := &p.Events[i]
+		switch {
+		case e.Kind == "mkclosure" && e.Val.Key() == call.Args[cbParam].Key():
+			mk = e
+		case e.Kind == "mkclosure":
+			return false
+		case e.Kind == "store" && e.Addr.Key() == cell.Key():
+			if !isFreshAccInit(e.Val) {
+				return false
+			}
+			inits++
+		case e.Kind == "call" && (e == call || e.Name == "builtin.len"):
+		default:
+			return false
+		}
+	}
+	if mk == nil || inits > 1 {
+		return false
+	}
+	captured := false
+	for _, b := range mk.Val.Args {
+		if b.Key() == cell.Key() {
+			captured = true
+		}
+	}
+	if !captured {
+		return false
+	}
+	cp := c.An.ClosurePaths(mk)
+	if cp.Unproven != "" || len(cp.Paths) != 1 || len(cp.Paths[0].Conds) != 0 {
+		return false
+	}
+	q := cp.Paths[0]
+	grows := 0
+	var elem *Term
+	for i := range q.Events {
+		e := &q.Events[i]
+		switch {
+		case e.Kind == "store" && e.Addr.Op == "iaddr" && e.Addr.Args[0].Op == "alloc" && e.Addr.Args[0].Key() != cell.Key():
+		case e.Kind == "call" && e.Name == "builtin.append":
+		case e.Kind == "store" && e.Addr.Key() == cell.Key():
+			base := &Term{Op: "load", Args: []*Term{cell}}
+			el, single := appendedElem(q, base, e.Val)
+			if !single {
+				return false
+			}
+			elem = el
+			grows++
+		default:
+			return false
+		}
+	}
+	if grows != 1 || elem == nil {
+		return false
+	}
+	// the appended element is what the sibling handed over: the parameter itself, or a composite of the parameters in order
+	np := len(mk.SSAFn.Params)
+	if np == 1 && elem.Op == "param" && elem.N == 0 {
+		return true
+	}
+	if elem.Op == "load" && elem.Args[0].Op == "alloc" {
+		lit := elem.Args[0]
+		got := map[int]*Term{}
+		for i := range q.Events {
+			e := &q.Events[i]
+			if e.Kind == "store" && e.Addr.Op == "iaddr" && e.Addr.Args[0].Key() == lit.Key() {
+				if k, ok := e.Addr.Args[1].IntVal(); ok {
+					got[int(k)] = e.Val
+				}
+			}
+		}
+		if len(got) != np {
+			return false
+		}
+		for k := 0; k < np; k++ {
+			if v := got[k]; v == nil || v.Op != "param" || v.N != k {
+				return false
+			}
+		}
+		return true
+	}
+	return false
+}
+
+// c13UnreachableRoundedGuard: a panicking row decided by R < 0 or R > len(slice) with R = (len(slice)/size)*size. For
+// every size >= 1 (the property's domain) 0 <= R <= len, so the row is never taken; the sizes below 1 are outside the
+// property. The path must do nothing before it panics.
+func c13UnreachableRoundedGuard(p *Path, fn *ssa.Function) bool {
+	for i := range p.Events {
+		if e := &p.Events[i]; !(e.Kind == "call" && e.Name == "builtin.len") {
+			return false
+		}
+	}
+	const R = "1·bin:/(builtin:len(p0),p1)*p1"
+	for _, cd := range p.Conds {
+		pl, kind, isInt := cd.Rel().IntNorm()
+		if !isInt || kind != ">" {
+			continue
+		}
+		got := c13Poly(pl, nil, fn)
+		// R < 0  <=>  -R > 0 ;  R > len  <=>  R - len > 0
+		if got == "-1·bin:/(builtin:len(p0),p1)*p1" || got == R+" + -1·builtin:len(p0)" || got == "-1·builtin:len(p0) + "+R {
+			return true
+		}
+	}
+	return false
 }
